@@ -87,9 +87,9 @@ def cut_of(got, k, shapes):
     if c != 1 or len(m) != 1 or m[0][1] != 1:
         return None
     a = m[0][0]
-    if a[0] != 'fn' or a[1] != 'slice' or len(a) != 6:
+    if a[0] != 'fn' or a[1] != 'slice' or len(a) != 7:
         return None
-    b, lo, hi, st = a[2], a[3], a[4], a[5]
+    b, lo, hi, st = a[3], a[4], a[5], a[6]
     if b[0] != 'B' or b[1] != R or Poly.from_key(b[2]) != sym(k, *shapes.get(k, (R,))):
         return None
     if lo != ('C', None) or st != ('C', None) or hi[0] != 'P':
